@@ -3,8 +3,11 @@
 import json, os, shutil, sys
 pid, k, caught = sys.argv[1], sys.argv[2], sys.argv[3]
 note = sys.argv[4] if len(sys.argv) > 4 else ""
-src = "/tmp/seed/%s_out/%s" % (pid, k)
-dst = "/verif/seeded/%s-%s" % (pid, k)
+import os as _os
+suffix = _os.environ.get("SEED_SUFFIX", "")
+src = "/tmp/seed/%s_out%s/%s" % (pid, suffix, k.split(":")[0])
+dst = "/verif/seeded/%s-%s" % (pid, k.split(":")[-1])
+k = k.split(":")[-1]
 if os.path.exists(dst):
     shutil.rmtree(dst)
 shutil.copytree(src, dst)
